@@ -26,22 +26,28 @@ type Exception struct {
 	Ranged  string // ranged expression, rendered from resolved selectors
 	Effects string // effect signature; part of the key: a new effect invalidates the exception
 	Reason  string
+	// pattern form (Func/Ranged/Effects empty): the reviewed fact is about a data structure, not about one
+	// function body, so it is keyed by the receiver type, the shape of the ranged expression and the set of
+	// effects that may occur
+	FuncPrefix     string
+	RangedRe       string
+	EffectsAllowed []string
 }
 
 // Exceptions were confirmed by reading every consumer (DESIGN.md R3.3).
 var Exceptions = []Exception{
-	{"(*graph.WeightedAuthorizationModelGraph).calculateEdgeWeight", "edge.to.weights",
-		"collect(tupleCycle);keyed-store(weights);map-append(tupleCycleDependencies)",
-		"appends the one current edge to tupleCycleDependencies[d] for pairwise distinct d (keys of one map); tupleCycle is only consumed by membership tests, filters, len and per-element appends to distinct lists"},
-	{"(*graph.WeightedAuthorizationModelGraph).fixDependantEdgesWeight", "edge.weights",
-		"join(edgeWeights);nested[join(edgeWeights);map-append(tupleCycleDependencies)]",
-		"slot-wise maximum into a fresh map; the append adds the one current edge to the list of a different cycle root, once per distinct key2 first seen"},
-	{"(*graph.WeightedAuthorizationModelGraph).fixDependantEdgesWeight", "node.weights",
-		"join(edgeWeights);map-append(tupleCycleDependencies)",
-		"inner loop of the entry above"},
-	{"(*graph.AuthorizationModelGraphBuilder).upsertEdge", "iterator:g.Lines(from.ID(), to.ID())",
-		"field-append(conditions);nested[exists-return];return",
-		"at most one line per (from, to, edgeType, tuplesetRelation) exists: Direct and TTU lines are only created through upsertEdge, which returns at the first match, so at most one iteration has an effect"},
+	{Func: "(*graph.WeightedAuthorizationModelGraph).calculateEdgeWeight", Ranged: "edge.to.weights",
+		Effects: "collect(tupleCycle);keyed-store(weights);map-append(tupleCycleDependencies)",
+		Reason:  "appends the one current edge to tupleCycleDependencies[d] for pairwise distinct d (keys of one map); tupleCycle is only consumed by membership tests, filters, len and per-element appends to distinct lists"},
+	{Func: "(*graph.WeightedAuthorizationModelGraph).fixDependantEdgesWeight", Ranged: "edge.weights",
+		Effects: "join(edgeWeights);nested[join(edgeWeights);map-append(tupleCycleDependencies)]",
+		Reason:  "slot-wise maximum into a fresh map; the append adds the one current edge to the list of a different cycle root, once per distinct key2 first seen"},
+	{Func: "(*graph.WeightedAuthorizationModelGraph).fixDependantEdgesWeight", Ranged: "node.weights",
+		Effects: "join(edgeWeights);map-append(tupleCycleDependencies)",
+		Reason:  "inner loop of the entry above"},
+	{FuncPrefix: "(*graph.AuthorizationModelGraphBuilder).", RangedRe: `^iterator:\w+\.Lines\(\w+\.ID\(\), \w+\.ID\(\)\)$`,
+		EffectsAllowed: []string{"field-append(conditions)", "nested[exists-return]", "exists-return", "return"},
+		Reason:         "first match among the lines between two given nodes, selected by (edgeType, tuplesetRelation): at most one such line exists — Direct and TTU lines are only created through upsertEdge, which stops at the first match — so at most one iteration has an effect, whichever order the iterator uses"},
 }
 
 // Loop is one order-source loop.
@@ -572,6 +578,11 @@ func (c *bodyCtx) walk(stmts []ast.Stmt, joinTarget string) {
 				c.problem(s.Pos(), "delete at an index other than the loop key")
 				continue
 			}
+			if m, ok := c.a.joinHelperCall(c.info, call); ok {
+				// a repository helper whose whole body is the slot-wise maximum join on its map parameter
+				c.effect("join(" + lastName(m) + ")")
+				continue
+			}
 			if ok, why := c.exprPure(call); ok {
 				continue
 			} else {
@@ -961,4 +972,127 @@ func (c *bodyCtx) fieldStore(s *ast.AssignStmt, l ast.Expr, rhs ast.Expr) {
 	}
 	c.effect("field-store(" + name + ")")
 	c.problem(s.Pos(), "store of a loop-dependent value into "+exprKey(l)+" (last writer wins)")
+}
+
+// joinHelperCall: the call invokes a repository function whose body is exactly
+//
+//	if cur, ok := m[k]; !ok { m[k] = v } else { m[k] = max(cur | m[k], v) }
+//
+// over its parameters m (a map), k and v; returns the map argument of the call.
+func (a *Analyzer) joinHelperCall(info *types.Info, call *ast.CallExpr) (ast.Expr, bool) {
+	fn, _ := typeutil.Callee(info, call).(*types.Func)
+	if fn == nil || !load.IsRepoPkg(fn.Pkg()) {
+		return nil, false
+	}
+	pk := a.P.Pkgs[load.ShortPkg(fn.Pkg())]
+	if pk == nil {
+		return nil, false
+	}
+	var decl *ast.FuncDecl
+	for _, f := range pk.Syntax {
+		for _, d := range f.Decls {
+			if fd, ok := d.(*ast.FuncDecl); ok && pk.TypesInfo.Defs[fd.Name] == fn {
+				decl = fd
+			}
+		}
+	}
+	if decl == nil || decl.Body == nil || decl.Recv != nil || len(decl.Body.List) != 1 {
+		return nil, false
+	}
+	hi := pk.TypesInfo
+	var params []types.Object
+	for _, f := range decl.Type.Params.List {
+		for _, n := range f.Names {
+			params = append(params, hi.Defs[n])
+		}
+	}
+	if len(params) != 3 || len(call.Args) != 3 || !isMap(params[0].Type()) {
+		return nil, false
+	}
+	isParam := func(e ast.Expr, i int) bool {
+		id, ok := ast.Unparen(e).(*ast.Ident)
+		return ok && hi.Uses[id] == params[i]
+	}
+	isSlot := func(e ast.Expr) bool {
+		ix, ok := ast.Unparen(e).(*ast.IndexExpr)
+		return ok && isParam(ix.X, 0) && isParam(ix.Index, 1)
+	}
+	ifs, ok := decl.Body.List[0].(*ast.IfStmt)
+	if !ok || ifs.Else == nil {
+		return nil, false
+	}
+	init, ok := ifs.Init.(*ast.AssignStmt)
+	if !ok || len(init.Lhs) != 2 || len(init.Rhs) != 1 || !isSlot(init.Rhs[0]) {
+		return nil, false
+	}
+	var cur types.Object
+	if id, ok := init.Lhs[0].(*ast.Ident); ok && id.Name != "_" {
+		cur = hi.Defs[id]
+	}
+	okID, isID := init.Lhs[1].(*ast.Ident)
+	un, isNot := ifs.Cond.(*ast.UnaryExpr)
+	if !isID || !isNot || un.Op != token.NOT {
+		return nil, false
+	}
+	if cid, ok := un.X.(*ast.Ident); !ok || hi.Uses[cid] != hi.Defs[okID] {
+		return nil, false
+	}
+	single := func(b *ast.BlockStmt) *ast.AssignStmt {
+		if b == nil || len(b.List) != 1 {
+			return nil
+		}
+		as, _ := b.List[0].(*ast.AssignStmt)
+		if as == nil || len(as.Lhs) != 1 || len(as.Rhs) != 1 || !isSlot(as.Lhs[0]) {
+			return nil
+		}
+		return as
+	}
+	first := single(ifs.Body)
+	elseBlk, _ := ifs.Else.(*ast.BlockStmt)
+	second := single(elseBlk)
+	if first == nil || second == nil || !isParam(first.Rhs[0], 2) {
+		return nil, false
+	}
+	// the else store: max over {current slot value, v}
+	strip := func(e ast.Expr) ast.Expr {
+		for {
+			e = ast.Unparen(e)
+			cv, ok := e.(*ast.CallExpr)
+			if ok && len(cv.Args) == 1 {
+				if tv, f := hi.Types[cv.Fun]; f && tv.IsType() {
+					e = cv.Args[0]
+					continue
+				}
+			}
+			return e
+		}
+	}
+	mx, ok := strip(second.Rhs[0]).(*ast.CallExpr)
+	if !ok || len(mx.Args) != 2 {
+		return nil, false
+	}
+	name := ""
+	if id, ok := mx.Fun.(*ast.Ident); ok {
+		name = id.Name
+	} else if f, _ := typeutil.Callee(hi, mx).(*types.Func); f != nil && f.Pkg() != nil && f.Pkg().Path() == "math" {
+		name = f.Name()
+	}
+	if name != "max" && name != "Max" {
+		return nil, false
+	}
+	sawCur, sawV := false, false
+	for _, arg := range mx.Args {
+		e := strip(arg)
+		if isSlot(e) {
+			sawCur = true
+		} else if id, ok := e.(*ast.Ident); ok && cur != nil && hi.Uses[id] == cur {
+			sawCur = true
+		} else if isParam(e, 2) {
+			sawV = true
+		}
+	}
+	if !sawCur || !sawV {
+		return nil, false
+	}
+	return call.Args[0], true
 }
